@@ -249,7 +249,8 @@ def mc_part(run: Run, prop: str, replay_max=None):
                 if lost <= 3:
                     run.violation('spec-behaviour-not-followed', f"a terminal behaviour of the model instance '{name}' is not a behaviour of the "
                                   f"code: config {b['cid']} deck {b['did']} log {[(x['k'], x['p'], x['amt']) for x in b['log']]}",
-                                  {'kind': 'mc-replay', 'instance': name, 'behaviour': b, 'hand': T.short_hand(rec)})
+                                  {'kind': 'mc-replay', 'instance': name, 'behaviour': b, 'hand': T.short_hand(rec),
+                                   'cfg': inst['cfgs'][b['cid'] - 1]['cfg'], 'deck': inst['cfgs'][b['cid'] - 1]['decks'][b['did'] - 1]})
         run.part(f'{prop}_mc_{name}', configs=r['configs'], states=r['states'], transitions=r['transitions'], tlc_wall=r['wall'],
                  violated_here=mine, violated_other_properties=others, terminal_behaviours=len(behs), replayed=len(recs), not_followed=lost,
                  exhaustive_replay=len(sample) == len(ok))
